@@ -124,10 +124,10 @@ def run(ctx):
     else:
         run_model(ctx, "bs_n2", E4, 2, ALL_CLASSES, switch_in=True, witnesses=True)
         run_model(ctx, "bs_n3", E4, 3, ALL_CLASSES, switch_in=True)
-        run_model(ctx, "bs_edge", EDGE, 3, ALL_CLASSES, switch_in=False)
-        run_model(ctx, "bs_e5", E5, 2, ALL_CLASSES, switch_in=False)
-        run_model(ctx, "bs_e8", E8, 2, ["honest", "honest_switch", "conflict_content", "beyond_last", "garbage",
-                                        "parent_not_earlier"], switch_in=False, vias=("node",), sample=400000)
+        run_model(ctx, "bs_edge", EDGE, 2, ALL_CLASSES, switch_in=True)
+        run_model(ctx, "bs_e5", E5, 2, ["honest", "honest_switch", "conflict_content", "beyond_last", "second_last_marker",
+                                        "garbage", "undecodable_txs"], switch_in=False, vias=("direct",))
+        run_model(ctx, "bs_e8", E8, 1, ALL_CLASSES, switch_in=False)
     return ctx.finish(rule="one case = one transition (store state, signed slice, group of real shreds, ingest path) of a "
                            "scenario; scenarios: block shapes 1..3 slices with and without a parent switch, every placement "
                            "of one conflicting signed slice (content / last flag / beyond the last slice) or one malformed "
